@@ -36,7 +36,15 @@ MANIFEST = dict(
           "k-split table and tree of every criterion is replayed by the extracted model (stored label sets, label -> group map, group "
           "means, tree_wf, breadth-first split and per-sample walk vs split()), the AIC/AICc/BIC scores are compared with the criterion "
           "of the model's exact RSS candidates; direct oracles: all subsets of k label sets, group means, own tree traversal on all "
-          "samples, every pair = stump of the samples reaching it, long-double criteria."),
+          "samples, every pair = stump of the samples reaching it, long-double criteria. "
+          "FOLLOW-UP of repo fix 2030fc5 (empty sample selections): C10_tree_bfs_is_walk -- for EVERY list of samples (empty list, single "
+          "samples, lists leaving whole branches empty) the queue-based split of do_split (children queued even with an empty set) gives "
+          "every listed sample the leaf of its own walk and nothing to the others; C10_tree_bfs_fuel (the queue empties within bfs_fuel "
+          "for every well-formed table; the driver checks bfs_done of its runs); C10_tree_sublist (the group does not depend on the "
+          "list). Every fitted learner of every criterion is also asked to predict and split the empty list, single samples, random "
+          "strict subsets and lists that leave a group / branch empty (clause ext-sublist: rows bit-identical to the prediction on the "
+          "fit list, groups identical, non-members unassigned; SUB lines replayed by the extracted group / tree_bfs); a crash prints "
+          "the operation (learner + sample list) from a signal handler and becomes a crash replay."),
     note=("Coq kernel; translator (9 + 16 kernels of wlearner/util.cpp, table.cpp, dtree.cpp, stump.cpp, hinge.cpp, affine.cpp, "
           "core/stats.h, dataset/iterator.cpp; the AIC/AICc/BIC expressions are translated structurally with the logarithms as named "
           "inputs and read over the reals); the criterion theorems use the standard real-number axioms; the driver evaluates the "
@@ -55,9 +63,9 @@ VARIANTS = ["rel"]
 CHUNKS = {"quick": (2, 1500), "thorough": (40, 2500)}   # (chunks, cases per chunk); the chunk id perturbs the seed
 COUNTERS = ("cases", "fits", "nofits", "obs", "optimal_checks", "reproduce_checks", "consistency_checks", "dstep_excluded",
             "scale_checks", "merges", "merged_pairs", "depth1_checks", "thread_checks", "missing_samples", "tie_columns",
-            "ext_topk", "ext_crit", "ext_ksplit", "ext_tree", "ext_treefit", "ext_topk_partial")
+            "ext_topk", "ext_crit", "ext_ksplit", "ext_tree", "ext_treefit", "ext_topk_partial", "ext_sublist", "ext_sublist_lists")
 HISTS = ("learners", "kinds", "subsets", "nhist", "obs_kinds")
-MODEL_LINES = ("CONST ", "CASE ", "F ", "G ", "FIT ", "PRED ", "SPLIT ", "SCALE ", "MERGE ")
+MODEL_LINES = ("CONST ", "CASE ", "F ", "G ", "FIT ", "PRED ", "SPLIT ", "SCALE ", "MERGE ", "SUB ")
 
 
 def _ensure_numeric():
@@ -129,7 +137,7 @@ def _hist(s):
 
 def _case_lines(lines, cid):
     """the lines of one case (for a replay file): CASE/F/G and everything that carries the id"""
-    return [l for l in lines if re.match(r"^(CASE|F|G|FIT|PRED|SPLIT|SCALE|MERGE|FAIL \S+|OBS \S+) %s( |$)" % re.escape(cid), l)]
+    return [l for l in lines if re.match(r"^(CASE|F|G|FIT|PRED|SPLIT|SCALE|MERGE|SUB|CRASH-CONTEXT|FAIL \S+|OBS \S+) %s( |$)" % re.escape(cid), l)]
 
 
 def _run_chunk(exe, drv, seed, tier, ncases, ch, only=None):
@@ -206,7 +214,10 @@ def run(tier, replay=None):
         if rc != 0 or not done:
             last_case = [l for l in lines if l.startswith("CASE ")][-1:]
             cid = last_case[0].split()[1] if last_case else "?"
+            ctxl = [l for l in lines if l.startswith("CRASH-CONTEXT ")]
             r.violation("crash", {"kind": "implementation crash / exception while fitting or predicting on a valid input",
+                                  "operation": (ctxl[-1][len("CRASH-CONTEXT "):][:3000] if ctxl else
+                                                "unknown (no CRASH-CONTEXT line: the crash happened outside predict/split of a sub-list)"),
                                   "exit": rc, "tier": tier, "chunk": ch, "cases_per_chunk": ncases,
                                   "case_index": int(cid) % 1000000 if cid.isdigit() else None,
                                   "case": [l[:3000] for l in _case_lines(lines, cid)][:40],
@@ -329,7 +340,8 @@ def run(tier, replay=None):
                               "of groups; tree = tree_wf of every fitted node table, tree_bfs and walk_from vs split(); crit = AIC/AICc/BIC score "
                               "vs the criterion of the model's exact RSS candidates; ties_skipped / crit_skipped = comparisons left out because "
                               "a merge step (or a delta order) of the model is a (near-)tie. harness: ext_topk (all subsets), ext_crit, ext_ksplit, "
-                              "ext_tree (structure + own traversal on all samples), ext_treefit (every pair = stump of its samples)")
+                              "ext_tree (structure + own traversal on all samples), ext_treefit (every pair = stump of its samples), "
+                              "ext_sublist / ext_sublist_lists (learners / sample lists of the sub-list clause; driver counter sub)")
     cov["mismatches"] = len(mism)
     cov["impl_direct_failures"] = len(impl_fail)
     cov["samples"] = samples
@@ -346,8 +358,11 @@ def run(tier, replay=None):
         "1e-9 * sum r^2; hinge is left out (its criterion uses the sample count of the hinge side, observation hinge-criterion-n)",
         "k-split: the moments of a cluster are the sums over its label sets and the stored tables reproduce the trial's RSS (tied by the "
         "correspondence and the group-mean oracle, not proved); std::lower_bound on the sorted hashes finds every stored label set",
-        "decision trees: the breadth-first split over sample sets equals the per-sample walk (both run against split() on every fit); "
-        "the greedy fit (every pair is the stump of the samples reaching it, terminal test, score = sum over the leaves) is searched",
+        "decision trees: the greedy fit (every pair is the stump of the samples reaching it, terminal test, score = sum over the "
+        "leaves) is searched; tree_wf of the fitted node tables is checked on every fit, not proved of do_fit (the breadth-first split "
+        "= per-sample walk is now a theorem, C10_tree_bfs_is_walk)",
+        "predict / split on arbitrary sub-lists (empty, single samples, strict subsets, lists leaving a branch empty) = the rows / "
+        "groups of the fit list, bit-exact, implementation-side for every learner (model side: per sample by construction)",
         "predictions depend only on the sample (other sample lists, repetitions), bit-exact, implementation-side",
         "score independent of the thread count 1..16 (bit-exact, implementation-side; the model-level statement is C10_chunks_irrelevant)"]
     cov["not_reached"] = ["feature values / gradients that are not small dyadics (cancellation in r2 - r1^2/x0 beyond 1e-9)",
